@@ -139,7 +139,7 @@ def write_instance(d, case, events):
     with open(os.path.join(d, "TraceLEData.tla"), "w") as fh:
         fh.write("---- MODULE TraceLEData ----\nEXTENDS Sequences\nTrace == <<\n  %s\n>>\nTraceKind == <<%s>>\n====\n" % (recs, kinds))
     lines = ["SPECIFICATION TraceSpec", "CONSTANTS", "  Pids = {%s}" % ", ".join('"%s"' % p for p in c["pids"]), "  MaxW = %d" % c["maxw"],
-             "  K = %d" % len(c["kinds"]), "  Kind <- TraceKind", "  QSize = %d" % c["qsize"], "  MaxCrash = %d" % c["maxcrash"],
+             "  K = %d" % len(c["kinds"]), "  Kind <- TraceKind", "  QSize = %d" % c["qsize"], "  MaxLeak = 0", "  MaxCrash = %d" % c["maxcrash"],
              "  MaxTimeout = %d" % c["maxtimeout"], "  MaxCancel = %d" % c["maxcancel"], "  HasTimeout = %s" % ("TRUE" if c["hastimeout"] else "FALSE"),
              '  FinalOps = {"%s"}' % c["fop"], "  InitFails = {}"]
     lines += ["  %s = %s" % kv for kv in c["switches"].items()]
